@@ -1,7 +1,9 @@
 //! C05 / C06 / C07: the errors and repair sequences the real recovering parser reports, judged by the
 //! Lean specification (`Model/Recover.lean`): every sequence repairs and the parse is the plain parse
 //! of the edited input (C05); the reported set is the reference minimum-cost set in the documented
-//! order (C06); the error list progresses and matches the outcome (C07).
+//! order (C06), and the reported list — sent in the order reported, Delete/Shift with the index of the
+//! lexeme they name — is a fixed point of the Lean model of `simplify_repairs` (C06); the error list
+//! progresses and matches the outcome (C07).
 use crate::gen::automaton::dump_automaton;
 use crate::gen::grammar::{self, GenCfg};
 use crate::gen::parse::{lr_terminates, STRIDE, TOKLEN};
@@ -114,6 +116,7 @@ pub fn emit(out: &mut Out, worker: &mut Worker, text: &str, rng: &mut Rng, thoro
     let mut n = 0usize;
     let mut stats = (0u64, 0u64, 0u64, 0u64, 0u64, 0u64); // clean, with errors, multi-error, slow, hang, repairs
     let mut hfail: Option<String> = None;
+    let mut several = 0u64; // errors with >= 2 sequences: where the order of the reported list matters
     for w in &inputs {
         if !lr_terminates(&g, &st, w, 400 * (w.len() + 2)) {
             if which == 7 {
@@ -141,6 +144,9 @@ pub fn emit(out: &mut Out, worker: &mut Worker, text: &str, rng: &mut Rng, thoro
                         body.extend(enc_seq(s));
                     }
                     stats.5 += e.repairs.len() as u64;
+                    if e.repairs.len() >= 2 {
+                        several += 1;
+                    }
                 }
                 if p.errors.is_empty() {
                     stats.0 += 1;
@@ -206,6 +212,7 @@ pub fn emit(out: &mut Out, worker: &mut Worker, text: &str, rng: &mut Rng, thoro
     out.add("inconclusive_slow", stats.3);
     out.add("not_returning", stats.4);
     out.add("repair_sequences", stats.5);
+    out.add("errors_with_several_sequences", several);
     if out.next_id % 29 == 1 {
         out.sample(desc);
     }
